@@ -14,7 +14,7 @@ BASE_T = 1_600_000_000  # all static mtimes are BASE_T + k*10 s, whole milliseco
 # --------------------------------------------------------------------------
 
 
-def gen_dag(rng, n_targets=None, max_targets=8, p_noout=0.1, p_noin=0.15, max_outs=3, max_ins=4, n_sources=None, shapes=None):
+def gen_dag(rng, n_targets=None, max_targets=8, p_noout=0.1, p_noin=0.15, max_outs=3, max_ins=4, n_sources=None, shapes=None, shuffle_names=True):
     """abstract workflow: list of targets with project-relative file names.
     Acyclic by construction: target i may only consume files produced by j < i or sources."""
     n = n_targets or rng.randint(1, max_targets)
@@ -62,6 +62,15 @@ def gen_dag(rng, n_targets=None, max_targets=8, p_noout=0.1, p_noin=0.15, max_ou
         ins = list(dict.fromkeys(ins))
         targets.append({"name": name, "ins": ins, "outs": outs})
         produced.extend((f, i) for f in outs)
+    # target names must not be correlated with the dependency order (gwf visits dependencies and
+    # endpoints in NAME order): permute the names, and sometimes the definition order as well
+    if shuffle_names:
+        perm = ["t%d" % i for i in range(n)]
+        rng.shuffle(perm)
+        for t, nm in zip(targets, perm):
+            t["name"] = nm
+        if rng.random() < 0.5:
+            rng.shuffle(targets)
     return {"targets": targets, "sources": sources, "shape": shape}
 
 
@@ -165,6 +174,7 @@ class Project:
         self.root = root or os.path.join(self.base, "proj")
         os.makedirs(self.root, exist_ok=True)
         self.simdir = os.path.join(self.base, "sim")
+        self.tick_ns = 10 * 1_000_000_000  # one tick of the static mtime scale (default 10 s)
 
     def path(self, rel):
         return rel if rel.startswith("/") else os.path.join(self.root, rel)
@@ -194,7 +204,7 @@ class Project:
                 pass
             return
         os.makedirs(os.path.dirname(p), exist_ok=True)
-        ns = (BASE_T + tick * 10) * 1_000_000_000
+        ns = BASE_T * 1_000_000_000 + tick * self.tick_ns
         if symlink:
             real = os.path.join(self.base, "outside", rel.replace("/", "__"))
             os.makedirs(os.path.dirname(real), exist_ok=True)
@@ -204,7 +214,7 @@ class Project:
                 os.remove(p)
             os.symlink(real, p)
             os.utime(real, ns=(ns, ns))
-            lns = (BASE_T + (link_tick if link_tick is not None else 0) * 10) * 1_000_000_000
+            lns = BASE_T * 1_000_000_000 + (link_tick if link_tick is not None else 0) * self.tick_ns
             os.utime(p, ns=(lns, lns), follow_symlinks=False)
             return
         if content is not None or not os.path.exists(p):
